@@ -631,14 +631,14 @@ def algebra_job(job):
         si[live[len(live) // 2]] = -1
         g_lost = base.Graph(vertices=dict(g0.vertices), edges={**dict(g0.edges), key: ed.replace(seq_in=si)})
         Gl = to_networkx_graph(g_lost, nodes=nodes)
-        nxn = [dict(name=str(n), kind=d["kind"], seq=int(d["seq"]), start=to_grid(d["ts_start"]), end=to_grid(d["ts_end"])) for n, d in Gl.nodes(data=True)]
+        nxn = [dict(name=str(n), kind=d.get("kind", "?"), seq=int(d.get("seq", -7)), start=to_grid(d.get("ts_start", -7.0)), end=to_grid(d.get("ts_end", -7.0))) for n, d in Gl.nodes(data=True)]   # (a vertex networkx created for a dangling edge has no attributes: the case is rejected, not crashed on)
         nxe = [[str(u), str(v)] for u, v in Gl.edges()]
         cases.append(dict(id=f"{job['id']}/to_nx_lost_message", op="to_nx", g=_tables_of_graph(g_lost), ends=ends, nx=dict(nodes=nxn, edges=nxe)))
     except StopIteration:
         pass
     for i, g in enumerate(graphs[:2]):
         G = to_networkx_graph(stacked[i], nodes=nodes)
-        nxn = [dict(name=str(n), kind=d["kind"], seq=int(d["seq"]), start=to_grid(d["ts_start"]), end=to_grid(d["ts_end"])) for n, d in G.nodes(data=True)]
+        nxn = [dict(name=str(n), kind=d.get("kind", "?"), seq=int(d.get("seq", -7)), start=to_grid(d.get("ts_start", -7.0)), end=to_grid(d.get("ts_end", -7.0))) for n, d in G.nodes(data=True)]   # (a vertex networkx created for a dangling edge has no attributes: the case is rejected, not crashed on)
         nxe = [[str(u), str(v)] for u, v in G.edges()]
         cases.append(dict(id=f"{job['id']}/to_nx/e{i}", op="to_nx", g=indexed[i], ends=ends, nx=dict(nodes=nxn, edges=nxe)))
     return dict(cases=cases, checks=cases_extra)
